@@ -24,12 +24,14 @@ func init() {
 		"strconv.Itoa":  func(f *frame, cm *ssa.CallCommon, a []Val, st *State, n string, rt types.Type, p token.Pos) Val { return Val{T: f.c.define(n, SStr, "(itoa "+a[0].T+")"), Typ: rt} },
 		"strconv.Atoi":  extAtoi,
 		"fmt.Sscanf":    extSscanf,
-		"encoding/xml.Unmarshal": extHavocAll,
+		"encoding/xml.Unmarshal": extUnmarshal,
 		"(*encoding/xml.Decoder).Token": extToken,
 		"encoding/xml.NewDecoder": extNewDecoder,
 		"(*encoding/xml.Encoder).Encode":        extEncode,
 		"(*encoding/xml.Encoder).EncodeElement": extEncode,
 		"(*encoding/xml.Encoder).EncodeToken":   extEncodeToken,
+		"archive/zip.NewReader":       extZipNewReader,
+		"(*archive/zip.File).Open":    extNonNilOnSuccess,
 		"os.MkdirAll":                 extIOErr,
 		"os.Create":                   extOpenResource,
 		"archive/zip.NewWriter":       extZipNewWriter,
@@ -110,8 +112,80 @@ func extSscanf(f *frame, cm *ssa.CallCommon, args []Val, st *State, name string,
 			return r
 		}
 	}
+	// general format: Sscanf writes only through the pointers it is given
+	if vals := varargValues(cm.Args[2]); vals != nil {
+		allOK := true
+		for _, v := range vals {
+			mi, ok := v.(*ssa.MakeInterface)
+			if !ok {
+				allOK = false
+				break
+			}
+			pt, ok := mi.X.Type().Underlying().(*types.Pointer)
+			if !ok || isStruct(pt.Elem()) {
+				allOK = false
+				break
+			}
+			if _, isArr := pt.Elem().Underlying().(*types.Array); isArr {
+				allOK = false
+				break
+			}
+		}
+		if allOK {
+			for _, v := range vals {
+				mi := v.(*ssa.MakeInterface)
+				pt := mi.X.Type().Underlying().(*types.Pointer)
+				h := g.TE.CellHeap(pt.Elem())
+				nv := f.c.declare("scanned", g.TE.SortOf(pt.Elem()))
+				f.storeHeap(st, h, f.val(mi.X).T, nv)
+			}
+			f.c.assumed["fmt.Sscanf: total; writes only through the pointer arguments it is given (scanned values unconstrained)"] = true
+			return f.freshResult(resT, st, name)
+		}
+	}
 	f.havocHeaps(st, []string{g.TE.CellHeap(types.Typ[types.Int]), g.TE.CellHeap(types.Typ[types.Float64]), g.TE.CellHeap(types.Typ[types.String])})
 	return f.freshResult(resT, st, name)
+}
+
+// varargValues returns the SSA values stored into the literal array behind a variadic argument.
+func varargValues(v ssa.Value) []ssa.Value {
+	sl, ok := v.(*ssa.Slice)
+	if !ok {
+		return nil
+	}
+	al, ok := sl.X.(*ssa.Alloc)
+	if !ok {
+		return nil
+	}
+	at, ok := al.Type().Underlying().(*types.Pointer).Elem().Underlying().(*types.Array)
+	if !ok {
+		return nil
+	}
+	out := make([]ssa.Value, at.Len())
+	for _, ref := range *al.Referrers() {
+		ia, ok := ref.(*ssa.IndexAddr)
+		if !ok {
+			continue
+		}
+		k, ok := ia.Index.(*ssa.Const)
+		if !ok || k.Value == nil {
+			return nil
+		}
+		idx, _ := constant.Int64Val(k.Value)
+		for _, r2 := range *ia.Referrers() {
+			if st, ok := r2.(*ssa.Store); ok && st.Addr == ssa.Value(ia) {
+				if idx >= 0 && int(idx) < len(out) {
+					out[idx] = st.Val
+				}
+			}
+		}
+	}
+	for _, x := range out {
+		if x == nil {
+			return nil
+		}
+	}
+	return out
 }
 
 // varargElems returns the interface elements of a variadic []any argument built from a literal array.
@@ -367,5 +441,53 @@ func extCloseResource(f *frame, cm *ssa.CallCommon, args []Val, st *State, name 
 	st.heaps[count] = c.define("opencount", SInt, fmt.Sprintf("(ite %s (- %s 1) %s)", closed, st.Heap(count), st.Heap(count)))
 	st.heaps[open] = c.define("open", "(Array Ref Bool)", fmt.Sprintf("(ite %s (store %s %s false) %s)", closed, st.Heap(open), args[0].T, st.Heap(open)))
 	c.assumed[ioAssumption] = true
+	return r
+}
+
+
+// extUnmarshal: xml.Unmarshal(data, &v) is total and writes only into the value v points to.
+func extUnmarshal(f *frame, cm *ssa.CallCommon, args []Val, st *State, name string, resT types.Type, pos token.Pos) Val {
+	hs, ok := f.c.g.unmarshalTargetHeaps(cm.Args[1])
+	if !ok {
+		return extHavocAll(f, cm, args, st, name, resT, pos)
+	}
+	f.havocHeaps(st, hs)
+	f.havocNext(st)
+	f.c.assumed["encoding/xml.Unmarshal: total (returns, never panics); writes only memory reachable from the value its second argument points to (modelled: every heap of the types reachable from that value is havocked)"] = true
+	return f.freshResult(resT, st, name)
+}
+
+
+// extNonNilOnSuccess: (value, error) results of library constructors: value non-nil when err == nil.
+func extNonNilOnSuccess(f *frame, cm *ssa.CallCommon, args []Val, st *State, name string, resT types.Type, pos token.Pos) Val {
+	f.havocNext(st)
+	r := f.freshResult(resT, st, name)
+	v, err := r.Tuple[0], r.Tuple[1]
+	nonnil := fmt.Sprintf("(not (= %s nil))", v.T)
+	if isIface(v.Typ) {
+		nonnil = fmt.Sprintf("(not (= (itag %s) 0))", v.T)
+	}
+	f.c.assume(st, fmt.Sprintf("(=> (= (itag %s) 0) %s)", err.T, nonnil))
+	f.c.assumed["library constructors returning (value, error) ("+cm.StaticCallee().String()+"): value is non-nil when the error is nil"] = true
+	return r
+}
+
+// extZipNewReader: on success the reader is non-nil and its File slice holds non-nil entries.
+func extZipNewReader(f *frame, cm *ssa.CallCommon, args []Val, st *State, name string, resT types.Type, pos token.Pos) Val {
+	c := f.c
+	g := c.g
+	r := extNonNilOnSuccess(f, cm, args, st, name, resT, pos)
+	rd, err := r.Tuple[0], r.Tuple[1]
+	rt := rd.Typ.Underlying().(*types.Pointer).Elem()
+	ft, ok := fieldAt(rt, "", "File")
+	if !ok {
+		return r
+	}
+	fh := g.TE.FieldHeap(rt, "File", g.TE.SortOf(ft))
+	et := ft.Underlying().(*types.Slice).Elem()
+	ch := g.TE.CellHeap(et)
+	files := fmt.Sprintf("(select %s %s)", st.Heap(fh), rd.T)
+	c.assume(st, fmt.Sprintf("(=> (= (itag %s) 0) (forall ((i Int)) (! (=> (and (<= 0 i) (< i (slen %s))) (not (= (select %s (selem %s i)) nil))) :pattern ((selem %s i)))))", err.T, files, st.Heap(ch), files, files))
+	c.assumed["archive/zip.NewReader: on success every element of Reader.File is non-nil"] = true
 	return r
 }
